@@ -3297,8 +3297,12 @@ func stackTypeAliasConverter(u any) (S Stack, converted bool) {
 		// genuine Stack, just pass it back
 		// with a thumbs-up ...
 		if st, isStack := u.(Stack); isStack {
-			S = st
-			converted = isStack
+			// a zero Stack is no more usable than a
+			// zero alias (see below): do not convert.
+			if !st.IsZero() {
+				S = st
+				converted = isStack
+			}
 			return
 		}
 
